@@ -40,7 +40,8 @@ fn scripts(rng: &mut Rng, total: usize) -> String {
         }
     }
     let mut wr: Vec<String> = Vec::new();
-    for _ in 0..rng.range(0, 4) {
+    let many = rng.chance(1, 4);
+    for _ in 0..(if many { rng.range(8, 40) } else { rng.range(0, 4) }) {
         wr.push(match rng.below(8) {
             0..=2 => format!("a{}", rng.range(1, 40)),
             3 | 4 => "b".into(),
@@ -55,7 +56,9 @@ fn scripts(rng: &mut Rng, total: usize) -> String {
     }
     let j = |v: &Vec<String>| if v.is_empty() { "-".to_string() } else { v.join(",") };
     let rddef = if rng.chance(1, 8) { "e".to_string() } else { format!("d{}", 1usize << 40) };
-    format!("script rd={} rddef={} wr={} wrdef=a{} fl={} fldef=o", j(&rd), rddef, j(&wr), 1usize << 40, j(&fl))
+    // sometimes every write is short
+    let wrdef = if rng.chance(1, 4) { format!("a{}", rng.range(1, 90)) } else if rng.chance(1, 12) { "z".to_string() } else { format!("a{}", 1usize << 40) };
+    format!("script rd={} rddef={} wr={} wrdef={} fl={} fldef=o", j(&rd), rddef, j(&wr), wrdef, j(&fl))
 }
 
 pub fn gen_server(rng: &mut Rng, id: usize) -> Vec<String> {
@@ -288,7 +291,7 @@ pub fn gen_client(rng: &mut Rng, id: usize) -> Vec<String> {
     let proto = match rng.below(8) {
         0 => Some("chat"),
         1 => Some("superchat"),
-        2 => Some("unknown"),
+        2 => Some(*rng.pick(&["unknown", "hat", "super", "chat, superchat", ","])),
         _ => {
             if protos.is_empty() || rng.chance(1, 5) {
                 None
